@@ -1,6 +1,7 @@
 package checks
 
 import (
+	"strings"
 	"encoding/json"
 	"fmt"
 	"os"
@@ -95,4 +96,29 @@ func checkRapid(t *testing.T, r *rep.R, prop func(*rapid.T)) {
 		rapid.Check(st, prop)
 	})
 	r.AfterRapid(t, failedBefore)
+}
+
+// wrapInBlock puts statements into a construct that runs them exactly once (form 0: unchanged): builtins must behave
+// the same inside a taken branch, an else branch, a one-pass loop, a switch case and a nested combination.
+func wrapInBlock(lines string, form int, k int) string {
+	ind := func(s string) string {
+		out := ""
+		for _, l := range strings.Split(strings.TrimSuffix(s, "\n"), "\n") {
+			out += "\t" + l + "\n"
+		}
+		return out
+	}
+	switch form {
+	case 1:
+		return "if 1 == 1 {\n" + ind(lines) + "}\n"
+	case 2:
+		return fmt.Sprintf("for wi%d := 0; wi%d < 1; wi%d++ {\n", k, k, k) + ind(lines) + "}\n"
+	case 3:
+		return "if 1 == 2 {\n\tprint(\"never\")\n} else {\n" + ind(lines) + "}\n"
+	case 4:
+		return "switch 1 {\ncase 2:\n\tprint(\"never\")\ncase 1:\n" + ind(lines) + "}\n"
+	case 5:
+		return fmt.Sprintf("for wj%d := 0; wj%d < 2; wj%d++ {\n\tif wj%d == 1 {\n", k, k, k, k) + ind(ind(lines)) + "\t}\n}\n"
+	}
+	return lines
 }
